@@ -264,6 +264,19 @@ pub fn check_archive(spec: &Spec, bytes: &[u8], lay: &Layout, st: &mut Stats, or
                 }
             }
         }
+        // file_names(): exactly the set of decoded names
+        match guard(|| ar.file_names().map(|x| x.to_string()).collect::<std::collections::BTreeSet<String>>()) {
+            Ok(got) => {
+                let want: std::collections::BTreeSet<String> = last_of.keys().cloned().collect();
+                if got != want {
+                    all_ok = false;
+                    let extra: Vec<&String> = got.difference(&want).take(3).collect();
+                    let missing: Vec<&String> = want.difference(&got).take(3).collect();
+                    bad("file_names/set", format!("file_names() lists {} names, the directory has {} distinct ones; not recorded: {:?}; missing: {:?}", got.len(), want.len(), extra, missing), st);
+                }
+            }
+            Err(p) => bad(&format!("panic/file_names/{}", panic_site(&p)), p, st),
+        }
         match guard(|| ar.by_name("no such entry \u{1}").map(|_| ())) {
             Ok(Err(zip::result::ZipError::FileNotFound)) => {}
             Ok(r) => {
@@ -472,6 +485,56 @@ pub fn run(args: &Args) -> i32 {
         });
         ctx.stats.merge(s);
         ctx.bound("entry_counts", json!("{65534, 65535, 65536, 65537} one-byte entries x comment {none, 5 bytes} x prefix {0, 100}"));
+    }
+    // name shapes: names that differ only in separator direction, case, a trailing or leading separator, a NUL, a space;
+    // unflagged names / comments whose high bytes happen to be well-formed UTF-8; every ordered pair in a two-entry archive
+    {
+        let raw: Vec<&[u8]> = vec![
+            b"a/b", b"a\\b", b"A/B", b"a/b/", b"a\\b\\", b"/a/b", b"a//b", b"./a/b", b"a/b\0", b"a/b ", b"", b" ", b"a", b"a/",
+            b"caf\xC3\xA9.txt", b"\xE2\x82\xAC", b"caf\x82", b"\xC3\xA9", b"\xC3", b"\xF0\x9F\x90\xA2", b"\xEF\xBB\xBFbom", b"a\xC2\xA0b",
+        ];
+        let shapes: Vec<(Vec<u8>, bool)> = raw.iter().flat_map(|n| [(n.to_vec(), false), (n.to_vec(), true)]).collect();
+        let ns = shapes.len();
+        let shapes_r = &shapes;
+        let red_r = &red;
+        let s = par_for((ns * ns) as u64, 16, |i, st| {
+            let i = i as usize;
+            let (a, b) = (&shapes_r[i / ns], &shapes_r[i % ns]);
+            let mut e0 = ESpec { name: a.0.clone(), utf8: a.1, comment: b.0.clone(), ..red_r[0].clone() };
+            e0.zip64_central = 0;
+            let e1 = ESpec { name: b.0.clone(), utf8: b.1, comment: a.0.clone(), ..red_r[1].clone() };
+            let spec = Spec { entries: vec![e0, e1], ..Default::default() };
+            let (bytes, lay) = build(&spec);
+            check_archive(&spec, &bytes, &lay, st, (9 << 40) + i as u64, "name-shapes");
+        });
+        ctx.stats.merge(s);
+        ctx.bound("name_shapes", json!({"names": raw.iter().map(|n| crate::util::show(n)).collect::<Vec<_>>(), "flag": ["clear", "set"], "archives": "every ordered pair of (name, flag) as a two-entry archive; each name also serves as the other entry's comment"}));
+    }
+    // ZIP64 end records with an extensible data sector (APPNOTE 4.3.14: the record's size field is 44 + sector length)
+    {
+        let sectors: Vec<Vec<u8>> = vec![vec![], vec![0x11], extra_block(0x0065, b"0123456789ab"), vec![0x22; 33], vec![0x50, 0x4b, 0x06, 0x06, 0, 0, 0, 0], vec![0x33; 4096], vec![0x44; 70_000]];
+        let bases: Vec<Spec> = vec![
+            Spec { entries: vec![red[1].clone()], force_zip64_eocd: true, ..Default::default() },
+            Spec { entries: vec![ESpec { zip64_central: 7, zip64_local: true, ..red[0].clone() }, red[2].clone(), red[3].clone()], force_zip64_eocd: true, comment: b"with a comment".to_vec(), ..Default::default() },
+            Spec { entries: vec![], force_zip64_eocd: true, ..Default::default() },
+        ];
+        let prefixes = [0usize, 15, 4090];
+        let mut st = Stats::default();
+        let mut k = 0u64;
+        for sec in &sectors {
+            for b in &bases {
+                for &pl in &prefixes {
+                    let mut spec = b.clone();
+                    spec.zip64_ext = sec.clone();
+                    spec.prefix = vec![0x5a; pl];
+                    let (bytes, lay) = build(&spec);
+                    check_archive(&spec, &bytes, &lay, &mut st, (10 << 40) + k, "zip64-extensible-sector");
+                    k += 1;
+                }
+            }
+        }
+        ctx.stats.merge(st);
+        ctx.bound("zip64_extensible_data_sector", json!({"sector_lengths": sectors.iter().map(|s| s.len()).collect::<Vec<_>>(), "archives": 3, "prefix_lengths": prefixes}));
     }
     // zero entries
     let mut st0 = Stats::default();
